@@ -112,6 +112,16 @@ def collect(prop, ctx):
             continue
         pat = re.compile(v['pattern'])
         names = [n for n in r['functions'] if pat.search(n) and not re.search(r'::axiom_\w+$', n)]
+        # functions whose hint anchors were lost (body restructured): contract kept, body not verified -> UNDECIDED
+        ndeg = 0
+        for d in (r.get('manifest') or {}).get('degraded', []):
+            cand = _degraded_name(v['crate'], d)
+            if pat.search(cand):
+                ndeg += 1
+                obs.append({'name': 'verus:%s:%s' % (tag, cand), 'engine': 'verus', 'status': 'undecided',
+                            'why': 'function body was restructured, proof hints no longer apply (%s)' % '; '.join(d['errors'])[:400]})
+        if not names and ndeg:
+            continue
         if not names:
             obs.append({'name': 'verus:%s:%s' % (tag, v['pattern']), 'engine': 'verus', 'status': 'undecided',
                         'why': 'lost anchor: no verified function matches'})
@@ -168,6 +178,17 @@ def collect(prop, ctx):
                 rec['why'] = r['status'] + ': ' + (r.get('detail', '') or '; '.join(r.get('failed_checks', [])))[-800:]
             obs.append(rec)
     return obs
+
+
+def _degraded_name(crate, d):
+    """Verus-style path of a degraded function, e.g. unic_locale_impl::extensions::unicode::UnicodeExtensionList::set_keyword."""
+    mod = d['file'][:-3].replace('/', '::')
+    mod = re.sub(r'(^|::)(lib|mod)$', '', mod)
+    ty = ''
+    if d['header'].startswith('impl'):
+        ty = re.sub(r'^impl(<[^>]*>)?\s*', '', d['header']).split(' for ')[-1].split('<')[0].strip().split('::')[-1]
+    parts = [verus.CRATES[crate]['name']] + [x for x in (mod, ty, d['fn']) if x]
+    return '::'.join(parts)
 
 
 def _fn_match(diag_fn, verus_name):
@@ -234,7 +255,7 @@ def check(prop, tier, seed, verbose=False, list_only=False):
     proved = [o for o in obs if o['status'] == 'proved' and not o.get('bounded')]
     bounded = [o for o in obs if o['status'] == 'proved' and o.get('bounded')]
     deferred = [o for o in obs if o['status'] == 'deferred']
-    os.makedirs(os.path.join(common.VERIF, 'replays'), exist_ok=True)
+    os.makedirs(os.path.join(common.OUT, 'replays'), exist_ok=True)
     violations = 0
     lines = []
     for o in failed:
@@ -337,8 +358,8 @@ def write_evidence(prop, tier, seed, spec, obs, proved, bounded, deferred, faile
         'wall_s': round(wall, 2),
         'violations': violations,
     }
-    os.makedirs(os.path.join(common.VERIF, 'evidence'), exist_ok=True)
-    p = os.path.join(common.VERIF, 'evidence', prop + '.json')
+    os.makedirs(os.path.join(common.OUT, 'evidence'), exist_ok=True)
+    p = os.path.join(common.OUT, 'evidence', prop + '.json')
     json.dump(ev, open(p, 'w'), indent=1)
 
 
